@@ -167,9 +167,20 @@ RULES = {
     'H_dyn_from': dict(
         kind='H',
         pattern='DynamicParams::from(params)',
-        replace='dynamic_params_from(params)',
-        why='the 340-field From impl is checked separately (unit core, region From<Vec<usize>>@DynamicParams) / assumed',
+        replace='crate::swiftness_air::dynamic::dynamic_params_from(params)',
+        why='the From impl is verified as the free function dynamic_params_from (templates/air/dynamic.rs); a trait impl cannot carry its precondition',
         assumes='panics unless exactly 340 values; assigns them to the fields in declaration order'),
+    # ---- air/dynamic.rs: the From<Vec<usize>> impl is checked as a free function (a trait impl cannot carry the precondition
+    #      that stands for its assert_eq!)
+    'T_dyn_from_sig': dict(
+        kind='T',
+        pattern='fn from(vec: Vec<usize>) -> Self {',
+        replace='pub fn dynamic_params_from(vec: Vec<usize>) -> DynamicParams {',
+        why='Verus trait impls cannot add a precondition; the assert_eq! of this function is its precondition',
+        assumes='DynamicParams::from(v) is this function (callers are rewritten by H_dyn_from)'),
+    'T_self_ctor': dict(
+        kind='T', pattern='Self {', replace='DynamicParams {',
+        why='`Self` has no meaning in the free-function form', assumes='no assumption: Self is DynamicParams in this impl'),
     # ---- stark/commit.rs
     'R1_for_underscore': dict(
         kind='R1', pattern='for _ in 0..n {', replace='for i__ in 0..n {',
